@@ -127,8 +127,55 @@ def tlc_sessions(pid, module, cfg, timeout=900, workers=None, keep=None):
     return st, sessions
 
 
+BATCH_WEIGHT = 6000
+
+
 def validate_sessions(pid, name, sessions, chunk=None, timeout=1500, workers=None, exhaustive=False,
                       limit=65535):
+    """Trace validation of a set of sessions; large sets are validated in batches (one drive + one TLC run each:
+    a single trace file of hundreds of megabytes is beyond what TLC's JSON reader handles in reasonable time)."""
+    def weight(s_):
+        sw = s_.get("sweep")
+        return min(int(sw.get("max", 60)), 120) if isinstance(sw, dict) else 1
+    batches, cur, w = [], [], 0
+    for s_ in sessions:
+        cur.append(s_)
+        w += weight(s_)
+        if w >= BATCH_WEIGHT:
+            batches.append(cur)
+            cur, w = [], 0
+    if cur:
+        batches.append(cur)
+    if len(batches) <= 1:
+        return _validate_batch(pid, name, sessions, chunk, timeout, workers, exhaustive, limit)
+    total = Stage()
+    total.exhaustive = exhaustive
+    agg = {"sessions": 0, "accepted": 0, "out_of_model": 0, "rejected": 0, "drive_wall_s": 0.0, "tlc_wall_s": 0.0,
+           "trace_states": 0, "batches": len(batches), "negative_controls_rejected": 0}
+    for bi, b in enumerate(batches):
+        bn = "%s_b%d" % (name, bi)
+        st = _validate_batch(pid, bn, b, chunk, timeout, workers, exhaustive, limit)
+        total.states += st.states
+        total.transitions += st.transitions
+        total.evaluations += st.evaluations
+        total.validated += st.validated
+        total.skipped += st.skipped
+        total.nontrivial += st.nontrivial
+        total.failures.extend(st.failures)
+        if not total.samples:
+            total.samples = st.samples
+        n_ = st.notes.get(bn, {})
+        for k in agg:
+            if k != "batches" and isinstance(n_.get(k), (int, float)):
+                agg[k] = round(agg[k] + n_[k], 1) if isinstance(agg[k], float) else agg[k] + n_[k]
+        if len(total.failures) > 400:
+            break
+    total.notes[name] = agg
+    return total
+
+
+def _validate_batch(pid, name, sessions, chunk=None, timeout=1500, workers=None, exhaustive=False,
+                    limit=65535):
     """Drive the sessions through the real interpreter (bvh drive) and let TLC decide whether each
     recorded trace is a behaviour of the specification (TraceMachine)."""
     st = Stage()
